@@ -601,6 +601,11 @@ fn c14_named_shapes() {
         (4, vec![J::Is(0, T::Fix(1, 1000)), J::Is(0, T::Fix(2, 1000)), J::Is(1, w(64, WordUse::UnsignedNumeric)), J::Is(3, T::Any)]),
         (4, vec![J::Is(0, T::Fix(1, 1003)), J::Is(3, T::Fix(2, 1003)), J::Eq(0, 3), J::Is(2, w(160, WordUse::Address))]),
         (3, vec![J::Is(0, T::Fix(1, 1004)), J::Is(0, T::Fix(2, 1004))]),
+        // two dynamic arrays met on a value that also carries a word a dynamic array absorbs (its length): the elements are unified
+        (3, vec![J::Is(0, T::Dyn(1)), J::Is(0, T::Dyn(2)), J::Is(0, T::Word(None, WordUse::Bool)), J::Is(1, w(64, WordUse::UnsignedNumeric))]),
+        (4, vec![J::Is(0, T::Dyn(1)), J::Is(3, T::Dyn(2)), J::Eq(0, 3), J::Is(3, T::Word(None, WordUse::Selector)), J::Is(2, w(160, WordUse::Address))]),
+        (3, vec![J::Is(0, T::Word(None, WordUse::Function)), J::Is(0, T::Dyn(1)), J::Is(0, T::Dyn(2))]),
+        (3, vec![J::Is(0, T::Dyn(1)), J::Is(0, w(256, WordUse::UnsignedNumeric)), J::Is(0, T::Dyn(2)), J::Is(2, T::Bytes)]),
         // ... and of the smallest lengths (0, 1)
         (4, vec![J::Is(0, T::Fix(1, 0)), J::Is(0, T::Fix(2, 0)), J::Is(1, w(64, WordUse::UnsignedNumeric)), J::Is(3, T::Any)]),
         (4, vec![J::Is(0, T::Fix(1, 0)), J::Is(3, T::Fix(2, 0)), J::Eq(0, 3), J::Is(2, T::Dyn(1))]),
@@ -718,4 +723,32 @@ fn c14_type_of_demands_exactly_one_expression() {
         }
     }
     println!("CASES c14_type_of {cases}");
+}
+
+/// two dynamic arrays that meet on a value which ALSO carries a word a dynamic array absorbs (the non-signed word read
+/// where its length lives — bool, selector, function, numeric, bytes usages alike): that evidence is not contradictory,
+/// so the value resolves to the array and the two element variables are unified
+#[test]
+fn c14_dynamic_arrays_with_an_absorbed_word_unify_their_elements() {
+    std::panic::set_hook(Box::new(|_| {}));
+    let mut cases = 0;
+    for u in [WordUse::Bool, WordUse::Selector, WordUse::Function, WordUse::Address, WordUse::Numeric, WordUse::UnsignedNumeric, WordUse::Bytes] {
+        for width in [None, u.size().or(Some(256))] {
+            for order in 0..3 {
+                let word = J::Is(0, T::Word(width, u));
+                let mut js = vec![J::Is(0, T::Dyn(1)), J::Is(0, T::Dyn(2))];
+                js.insert(order, word);
+                js.push(J::Is(1, T::Word(Some(64), WordUse::UnsignedNumeric)));
+                cases += 1;
+                let Outcome::Done(r) = run(3, &js, false, Duration::from_secs(20)) else { continue };
+                let t0 = r.of(0);
+                let resolved_to_array = matches!(&t0.type_of, Ok(TE::DynamicArray { .. }));
+                let same = r.root_of_id(r.ids[1]) == r.root_of_id(r.ids[2]);
+                if !resolved_to_array || !same {
+                    witness("C14", "unify.components_unified", show_js(3, &js), format!("v0 : {:?}; elements v1, v2 in one class: {same}", t0.type_of), "v0 resolves to a dynamic array whose element class holds v1 and v2".into());
+                }
+            }
+        }
+    }
+    println!("CASES c14_absorbed_words {cases}");
 }
